@@ -852,6 +852,170 @@ fn mutate(rng: &mut Rng, s: &str) -> String {
     cs.into_iter().collect()
 }
 
+// ---------------------------------------------------------------- literal SEQUENCES
+// Positions that take several numeric operands, or where adjacent literals can be merged by the parser:
+// the whole operand LIST (count, order, values) is read back.
+
+const SEQ_KINDS: &[&str] = &["call", "gateparams", "matrixrow", "defwaveform", "wfargs", "permutation", "pragma", "qubits"];
+
+fn seq_text(kind: &str, items: &[String]) -> String {
+    match kind {
+        "call" => format!("CALL f {}", items.join(" ")),
+        "gateparams" => format!("G({}) 0", items.join(", ")),
+        "matrixrow" => format!("DEFGATE G AS MATRIX:\n\t{}\n\t0, 1", items.join(", ")),
+        "defwaveform" => format!("DEFWAVEFORM w:\n\t{}", items.join(", ")),
+        "wfargs" => format!(
+            "PULSE 0 \"f\" w({})",
+            items.iter().enumerate().map(|(k, x)| format!("k{k}: {x}")).collect::<Vec<_>>().join(", ")
+        ),
+        "permutation" => format!("DEFGATE P AS PERMUTATION:\n\t{}", items.join(", ")),
+        "pragma" => format!("PRAGMA name {}", items.join(" ")),
+        "qubits" => format!("FENCE {}", items.join(" ")),
+        _ => unreachable!(),
+    }
+}
+
+fn seq_extract(kind: &str, is: &[Instruction]) -> Sexp {
+    let other = || tagged("other", vec![]);
+    if is.len() != 1 {
+        return other();
+    }
+    let items: Option<Vec<Sexp>> = match (kind, &is[0]) {
+        ("call", Instruction::Call(c)) => Some(
+            c.arguments()
+                .iter()
+                .map(|a| match a {
+                    UnresolvedCallArgument::Immediate(z) => cplx(z),
+                    _ => other(),
+                })
+                .collect(),
+        ),
+        ("gateparams", Instruction::Gate(g)) if g.qubits.len() == 1 => Some(g.parameters.iter().map(expr).collect()),
+        ("matrixrow", Instruction::GateDefinition(g)) => match &g.specification {
+            GateSpecification::Matrix(m) if m.len() == 2 && m[1].len() == 2 => Some(m[0].iter().map(expr).collect()),
+            _ => None,
+        },
+        ("defwaveform", Instruction::WaveformDefinition(w)) => Some(w.definition.matrix.iter().map(expr).collect()),
+        ("wfargs", Instruction::Pulse(p)) => {
+            // IndexMap keeps insertion order; the keys must be k0, k1, … in order
+            let ok = p.waveform.parameters.keys().enumerate().all(|(k, key)| *key == format!("k{k}"));
+            if ok {
+                Some(p.waveform.parameters.values().map(expr).collect())
+            } else {
+                None
+            }
+        }
+        ("permutation", Instruction::GateDefinition(g)) => match &g.specification {
+            GateSpecification::Permutation(v) => Some(v.iter().map(|n| tagged("nat", vec![nat(*n)])).collect()),
+            _ => None,
+        },
+        ("pragma", Instruction::Pragma(pr)) if pr.data.is_none() => Some(
+            pr.arguments
+                .iter()
+                .map(|a| match a {
+                    PragmaArgument::Integer(n) => tagged("nat", vec![nat(*n)]),
+                    _ => other(),
+                })
+                .collect(),
+        ),
+        ("qubits", Instruction::Fence(f)) => Some(f.qubits.iter().map(qubit).collect()),
+        _ => None,
+    };
+    match items {
+        Some(v) => tagged("items", v),
+        None => other(),
+    }
+}
+
+fn seq_case(ctx: &mut Ctx, kind: &'static str, items: &[String]) {
+    let text = seq_text(kind, items);
+    let mut input = vec![atom(kind)];
+    input.extend(items.iter().map(|x| st(x.clone())));
+    ctx.case(tagged("seq", input), move || {
+        let prog = Program::from_str(&text);
+        if let Err(e) = &prog {
+            format_error(e);
+        }
+        let out1 = match &prog {
+            Ok(p) => seq_extract(kind, &p.to_instructions()),
+            Err(_) => tagged("err", vec![]),
+        };
+        let instr = Instruction::from_str(&text);
+        if let Err(e) = &instr {
+            format_error(e);
+        }
+        let consistent = match (&prog, &instr) {
+            (Ok(p), Ok(i)) => {
+                let is = p.to_instructions();
+                is.len() == 1 && is[0] == *i && format!("{:?}", is[0]) == format!("{i:?}")
+            }
+            (Ok(p), Err(_)) => p.to_instructions().len() != 1,
+            (Err(_), Ok(_)) => false,
+            (Err(_), Err(_)) => true,
+        };
+        if consistent {
+            out1
+        } else {
+            tagged("mismatch", vec![out1, st(format!("{instr:?}"))])
+        }
+    });
+}
+
+/// literals whose adjacency matters: every spelling of zero with every sign, imaginary forms, signed reals
+const SEQ_POOL: &[&str] = &[
+    "0", "-0", "+0", "0.0", "-0.0", "+0.0", "0x0", "-0x0", "0e5", "-0e5", "0i", "-0i", "+0i", "0.0i", "-0.0i", "1", "-1",
+    "+1", "5", "2.5", "-2.5", "+2.5", "1e3", "2i", "-2i", "+2i", "1.5i", "-1.5i", "+1.5i", "-0x10", "0b1", "-1e-3i",
+    "1e-400i", "-1e-400i", "18446744073709551615", "-18446744073709551615i", "18446744073709551616", "1_0", "1e1_0",
+    "9007199254740993", "1e309",
+];
+
+fn seq_stream(ctx: &mut Ctx, quick: bool) {
+    let pool: Vec<String> = SEQ_POOL.iter().map(|s| s.to_string()).collect();
+    // corpus: the witnesses of seeded change C05-3 (a signed zero after a real immediate must not vanish)
+    for items in [
+        vec!["5", "-0"],
+        vec!["2.5", "-0.0", "7"],
+        vec!["1e3", "-0x0", "-0e5"],
+        vec!["3", "+0"],
+        vec!["1", "+2i"],
+        vec!["1", "-0i"],
+        vec!["1", "-2i", "-0", "3"],
+    ] {
+        let v: Vec<String> = items.iter().map(|s| s.to_string()).collect();
+        for kind in SEQ_KINDS {
+            seq_case(ctx, kind, &v);
+        }
+    }
+    // every ordered pair of the pool in the CALL position; a spread of pairs in the other kinds
+    for a in &pool {
+        for b in &pool {
+            seq_case(ctx, "call", &[a.clone(), b.clone()]);
+        }
+    }
+    let mut rng = ctx.rng(11);
+    let n_pairs = if quick { 150 } else { 1700 };
+    for kind in &SEQ_KINDS[1..] {
+        for _ in 0..n_pairs {
+            let a = rng.pick(&pool).clone();
+            let b = rng.pick(&pool).clone();
+            seq_case(ctx, kind, &[a, b]);
+        }
+    }
+    // longer sequences (1..=5 items) everywhere
+    let n_long = if quick { 250 } else { 20_000 };
+    for _ in 0..n_long {
+        let kind = *rng.pick(SEQ_KINDS);
+        let len = 1 + rng.below(5);
+        let items: Vec<String> = (0..len)
+            .map(|_| if rng.chance(1, 5) { random_spelling(&mut rng) } else { rng.pick(&pool).clone() })
+            .collect();
+        seq_case(ctx, kind, &items);
+        if kind != "call" && rng.chance(1, 2) {
+            seq_case(ctx, "call", &items);
+        }
+    }
+}
+
 fn main() {
     main_with(run)
 }
@@ -906,6 +1070,8 @@ fn run(ctx: &mut Ctx) {
             pos_case(ctx, pos, &format!("-{s}"));
         }
     }
+    // 3b. literal sequences: operand lists (count, order, values)
+    seq_stream(ctx, quick);
     // 4. seeded random spellings, valid and mutated, random positions + lexer
     let mut rng = ctx.rng(5);
     let n = if quick { 3000 } else { 150_000 };
